@@ -419,6 +419,12 @@ func (sdb *DbSqlite) initJwtKey() error {
 }
 
 func (sdb *DbSqlite) nodePoints(id string, points data.Points) error {
+	for _, p := range points {
+		if math.IsNaN(p.Value) {
+			return fmt.Errorf("Error: point %v value is not a number", p.Type)
+		}
+	}
+
 	points.Collapse()
 
 	sdb.writeLock.Lock()
@@ -559,6 +565,12 @@ NextPin:
 }
 
 func (sdb *DbSqlite) edgePoints(nodeID, parentID string, points data.Points) error {
+	for _, p := range points {
+		if math.IsNaN(p.Value) {
+			return fmt.Errorf("Error: point %v value is not a number", p.Type)
+		}
+	}
+
 	points.Collapse()
 
 	if nodeID == parentID {
